@@ -14,7 +14,7 @@ PROP = {'drive': ['Font'],
                        'C01_version_round_idem',
                        'C01_time_roundtrip',
                        'C01_angle_round_idem'],
- 'areas': [('font', 900, 12000)],
+ 'areas': [('font', 1200, 12000)],
  'rule': 'distinct case lines; a font.meta/font.derive/font.fixed line is a complete sfnt.Font value (all scalar '
          'fields + recipes for outlines, cmap, GDEF/GSUB/GPOS), a font.merge line a complete foreign table set '
          '(one decoded record per table or "-"); all are non-trivial (every line exercises every field)',
